@@ -41,7 +41,7 @@ def floors(tier):
     return {"distinct_nontrivial": 300, "variants_compared": 5000, "cls:variant_syntactically_different": 3000,
             "cls:decl_order_permuted": 1000, "cls:sel_order_permuted": 500, "cls:split_top_and": 100,
             "cls:nvars=3": 300, "cls:nvars=4": 100, "cls:for_all_query": 200, "cls:flatten_query": 100, "cls:flatten_of_plain_numbers": 60, "cls:concatenate_query": 100, "cls:feature_interaction_query": 150,
-            "cls:subquery_operand_before_its_parent_is_bound": 100}
+            "cls:subquery_operand_before_its_parent_is_bound": 100, "re:cls:scale:.*": 100}
 
 
 def cases(spec, ctx):
@@ -129,9 +129,15 @@ def cases(spec, ctx):
         nv_hi = 4 if rng.random() < 0.3 else 3
         # (a share of the selections contain an attribute expression next to plain variables: set_of([x.a, y], ...))
         case = multi.gen_case(rng, nvars=(1, nv_hi), depth=(1, 4), allow_expr_sel=rng.random() < 0.5)
+        n_variants = 3
+        if i % 45 == 9:
+            # SIZE: big joins and self-joins, 6-9 operands, IN-lists written out over two same-type variables, 5-6 variables
+            fl = ["join_big", "wide_join", "wide_or_eq", "selfjoin_big", "many_vars", "wide_or_eq", "wide_join"]
+            case = multi.gen_scale_case(rng, fl[(i // 45 + spec["sub"]) % len(fl)])
+            n_variants = 2
         nv = len(case["kinds"])
         variants = []
-        for _ in range(3):
+        for _ in range(n_variants):
             order = list(range(nv))
             rng.shuffle(order)
             sel = list(case["sel"])
@@ -148,11 +154,13 @@ def cases(spec, ctx):
         yield case
 
 
-def _rows(case, world, v, caching=True):
+def _rows(case, world, v, caching=True, times=1):
     """rows as frozensets of (variable index, label) so that selection order does not matter"""
     cc = {"world": case["world"], "kinds": case["kinds"], "cond": v["cond"], "sel": v["sel"]}
-    got = multi.evaluate(cc, world, caching=caching, order=v.get("order"), perm=v.get("perm"), split_top_and=v.get("split", False))[0]
-    return [frozenset(zip([s_ if isinstance(s_, int) else repr(s_) for s_ in v["sel"]], r)) for r in got]
+    gots = multi.evaluate(cc, world, caching=caching, order=v.get("order"), perm=v.get("perm"), split_top_and=v.get("split", False),
+                          times=times)
+    outs = [[frozenset(zip([s_ if isinstance(s_, int) else repr(s_) for s_ in v["sel"]], r)) for r in got] for got in gots]
+    return outs[0] if times == 1 else outs
 
 
 def check_forall_case(case, ctx):
@@ -346,9 +354,19 @@ def check_case(case, ctx):
     world = D.build_world(case["world"])
     nv = len(case["kinds"])
     ctx.cls(f"cls:nvars={nv}")
+    if case.get("scale"):
+        ctx.cls("cls:scale:" + case["scale"])
     base_v = {"cond": case["cond"], "sel": case["sel"], "order": None, "perm": None, "split": False}
     try:
-        base = _rows(case, world, base_v)
+        if case.get("scale"):
+            # (big queries: the same query object is also evaluated a second time - the rows of a query written once do not change either)
+            base, again = _rows(case, world, base_v, times=2)
+            if set(again) != set(base):
+                ctx.fail("SET:second_evaluation_of_the_base", {"only_first": [sorted(r, key=str) for r in set(base) - set(again)][:6],
+                                                               "only_second": [sorted(r, key=str) for r in set(again) - set(base)][:6]})
+                return
+        else:
+            base = _rows(case, world, base_v)
     except Exception as e:
         ctx.fail("EXC", f"base: {type(e).__name__}: {e}")
         return
